@@ -1010,7 +1010,104 @@ func (g *gen) emit(line string) string {
 	if !strings.HasPrefix(line, "groupk ") {
 		g.emitted = append(g.emitted, line)
 	}
-	return g.out.Do(line, func() string { return execOp(line) })
+	ans := g.out.Do(line, func() string { return execOp(line) })
+	g.dist["res."+classify(line, ans)]++
+	return ans
+}
+
+// classify names the branch of the real code an op reached (for the input-distribution report).
+func classify(line, ans string) string {
+	kind := line
+	if i := strings.IndexByte(line, ' '); i >= 0 {
+		kind = line[:i]
+	}
+	f := strings.Fields(ans)
+	has := func(sub string) bool { return strings.Contains(ans, sub) }
+	switch {
+	case strings.HasPrefix(ans, "PANIC"):
+		return kind + ":panic"
+	case ans == "bad-op" || ans == "dup-ids" || ans == "nil" || ans == "short" || ans == "arg-failed":
+		return kind + ":" + ans
+	}
+	switch kind {
+	case "recover":
+		w := strings.Fields(line)
+		k, _ := strconv.Atoi(w[1])
+		n := (len(w) - 3) / 2
+		c := "n=k"
+		if n > k {
+			c = "n>k(random-subset)"
+		}
+		if len(f) > 1 && f[1] == "-" {
+			c += ",nil-result"
+		}
+		if len(f) > 1 && strings.Trim(f[1], "0") == "" {
+			c += ",infinity"
+		}
+		return kind + ":" + c
+	case "gen", "lgen":
+		c := "never-generated"
+		if has("11") {
+			c = "generated"
+		}
+		if has("00") {
+			c += "+dup-sender"
+		}
+		if has("01") {
+			c += "+late"
+		}
+		return kind + ":" + c
+	case "deliver":
+		c := "incomplete"
+		if len(f) > 0 {
+			if strings.Contains(","+f[0]+",", ",1,") {
+				c = "completed"
+			} else if strings.HasSuffix(f[0], "-1") && has("nil") == false && !strings.Contains(f[0], "1,") {
+				c = "incomplete-or-refused"
+			}
+			if strings.Contains(f[0], "-1") {
+				c += "+refused"
+			}
+		}
+		return kind + ":" + c
+	case "g1unm":
+		return kind + ":" + f[0]
+	case "g1add", "g1mul", "g2add", "g2mul":
+		if strings.Trim(ans, "0") == "" {
+			return kind + ":infinity"
+		}
+		return kind + ":point"
+	case "dkg":
+		if has("hm-mismatch") || has("dkg-") {
+			return kind + ":" + f[0]
+		}
+		return kind + ":ok"
+	case "membercount":
+		w := strings.Fields(line)
+		mn, _ := strconv.Atoi(w[1])
+		mx, _ := strconv.Atoi(w[2])
+		rt, _ := strconv.Atoi(w[3])
+		av, _ := strconv.Atoi(w[4])
+		switch q := av / rt; {
+		case q > mx:
+			return kind + ":capped-at-max"
+		case q < mn:
+			return kind + ":below-min-no-group"
+		default:
+			return kind + ":exact"
+		}
+	case "groupk":
+		return kind + ":value"
+	case "idkey", "idparse":
+		if len(f) >= 2 {
+			return kind + ":" + f[len(f)-2]
+		}
+		return kind + ":" + f[0]
+	}
+	if len(f) > 0 && f[0] == "ok" {
+		return kind + ":ok"
+	}
+	return kind + ":value"
 }
 
 func (g *gen) bigBytes(n int) *big.Int { return new(big.Int).SetBytes(g.r.Bytes(n)) }
@@ -1216,8 +1313,12 @@ func (g *gen) genGroupK(exh, rnd int) {
 			n = int64(g.r.Intn(1<<20))*100 + int64(g.r.Intn(5)) - 2
 		case 1: // just below the exactness limit 2^53/51
 			n = (int64(1)<<53)/51 - int64(g.r.Intn(1000))
-		case 2: // above it (unmodelled on the Lean side)
-			n = (int64(1)<<53)/51 + 1 + int64(g.r.Intn(1<<30))
+		case 2: // above it (unmodelled on the Lean side): rarely
+			if g.r.Chance(1, 8) {
+				n = (int64(1)<<53)/51 + 1 + int64(g.r.Intn(1<<30))
+			} else {
+				n = int64(g.r.Intn(64)) * 100 / 51
+			}
 		case 3:
 			n = int64(g.r.U64() >> uint(12+g.r.Intn(40)))
 		default:
@@ -1410,12 +1511,16 @@ func (g *gen) genDeliver(cnt int) {
 			hist = append(hist, p)
 			sent = append(sent, p)
 		}
+		if g.r.Chance(1, 4) && len(hist) > 1 { // the history stops before completion
+			hist = hist[:1+g.r.Intn(len(hist)-1)]
+			kind = "stops-early"
+		}
 		switch g.r.Intn(4) {
 		case 0: // late re-delivery and a late stranger
 			hist = append(hist, sent[g.r.Intn(len(sent))], fresh(n+1))
 			kind += "+late"
 		case 1: // shares that sum to 0 mod r: aggregateKeys reports failure
-			if n >= 2 && kind == "plain" {
+			if n >= 2 && kind == "plain" && len(hist) == n {
 				tot := new(big.Int)
 				for _, p := range hist[:len(hist)-1] {
 					v, _ := tokNat(p.sh)
@@ -1474,7 +1579,7 @@ func (g *gen) genIdAndParam(cnt int) {
 		g.emit("idparse " + hx.Hex([]byte(str)))
 		mn := g.r.Pick(0, 1, 3, 5, 5)
 		mx := mn + g.r.Pick(0, 1, 5, 5, 95)
-		ratio := g.r.Pick(1, 1, 1, 2, 3, 0)
+		ratio := g.r.Pick(1, 1, 1, 2, 3, 1, 2, 1, 1, 3, 2, 0)
 		avail := g.r.Pick(0, 1, mn-1, mn, mn*ratio-1, mn*ratio, mx*ratio, mx*ratio+1, mx*ratio+ratio, 1000, 1<<40)
 		if avail < 0 {
 			avail = 0
@@ -2265,7 +2370,7 @@ func main() {
 	}
 	g.genShare(150 * scale)
 	g.genAgg(60 * scale)
-	g.genGroupK(300, 300*scale)
+	g.genGroupK(130, 60*scale)
 	g.genPerm(80 * scale)
 	g.genLagrange(25 * scale)
 	g.genG1(60 * scale)
